@@ -109,6 +109,24 @@ def run(ctx):
             for st in subsets:
                 one(p, wire, text, m, st, "generated")
             one(p, wire, text, m, [m], "generated")  # the mother itself in S: only daughters are looked at
+        if i % 3 == 0:
+            # a table set differing in a few values (branching fractions, parameters, a dropped or doubled line), then the
+            # previous one again on a NEW parser object: every chain comes from the tables of the text just read
+            d2 = gen.sibling_doc(rng, doc, structure=False)
+            for dd, lab in ((d2, "generated:sibling"), (doc, "generated:again")):
+                t2 = render_doc(dd)
+                try:
+                    p2 = DecFileParser.from_string(t2)
+                    p2.parse()
+                    w2 = conv_tree(raw_parse(t2))
+                except Exception:
+                    res.skipped += 1
+                    continue
+                for m in p2.list_decay_mother_names()[:2]:
+                    one(p2, w2, t2, m, [], lab)
+                    if subsets:
+                        one(p2, w2, t2, m, rng.choice(subsets), lab)
+            res.count("siblings")
         # not found
         for missing in (info["stable"][0], "nosuchparticle"):
             try:
